@@ -622,6 +622,133 @@ theorem v2_batched :
     refine ⟨_, b, by simp [v2Primary, Vals.get], by unfold InRange; rw [hr]; rfl, h1, ?_, h3⟩
     rw [hr] at h2; simpa using h2.symm
 
+/-! ## the documented octet layout, version 2 -/
+
+/-- the burst field of the v1/v2 definitions: sent iff `nope = 0` -/
+theorem burst_enc (name : String) (tbl : List (Int × Nat)) (v : Vals) (nope : Nat) (bits : List Nat)
+    (gn : v.get "nope" = .ok (.int nope)) (gb : v.get name = .ok (.bytes bits)) :
+    fieldTo (.buf name (.flagFalse "nope") (.table "mod" tbl)) v = .ok (if nope = 0 then bits else []) := by
+  by_cases h0 : nope = 0
+  · subst h0
+    rw [if_pos rfl]
+    exact fieldTo_buf_eval name _ v bits gb rfl _ (by simp [getPres, gn, Val.truthy])
+  · rw [if_neg h0]
+    exact fieldTo_absent_eval _ v (by simp [FDef.pres, getPres, gn, Val.truthy, h0]) (by intros; simp)
+
+def valsRxBatched (p : RxPart) : Vals :=
+  [("tn", .int p.tn), ("batch", .int p.batch), ("shadow", .int p.shadow), ("trxn", .int p.trxn), ("nope", .int p.nope),
+   ("mod", .int p.mod), ("tsc", .int p.tsc), ("rssi", .int p.rssi), ("toa256", .int p.toa256), ("cir", .int p.cir),
+   ("soft-bits", .bytes p.bits)]
+
+def valsV2Rx (fn : Nat) (p : RxPart) (subs : List RxPart) : Vals :=
+  [("ver", .int 2), ("tn", .int p.tn), ("batch", .int p.batch), ("trxn", .int p.trxn), ("nope", .int p.nope),
+   ("mod", .int p.mod), ("tsc", .int p.tsc), ("rssi", .int p.rssi), ("toa256", .int p.toa256), ("cir", .int p.cir),
+   ("fn", .int fn), ("soft-bits", .bytes p.bits), ("bpdu", .list (subs.map (fun q => Val.dict (valsRxBatched q))))]
+
+def valsTxBatched (p : TxPart) : Vals :=
+  [("tn", .int p.tn), ("batch", .int p.batch), ("shadow", .int p.shadow), ("trxn", .int p.trxn), ("nope", .int p.nope),
+   ("mod", .int p.mod), ("tsc", .int p.tsc), ("pwr", .int p.pwr), ("scpir", .int p.scpir), ("hard-bits", .bytes p.bits)]
+
+def valsV2Tx (fn : Nat) (p : TxPart) (subs : List TxPart) : Vals :=
+  [("ver", .int 2), ("tn", .int p.tn), ("batch", .int p.batch), ("trxn", .int p.trxn), ("nope", .int p.nope),
+   ("mod", .int p.mod), ("tsc", .int p.tsc), ("pwr", .int p.pwr), ("scpir", .int p.scpir),
+   ("fn", .int fn), ("hard-bits", .bytes p.bits), ("bpdu", .list (subs.map (fun q => Val.dict (valsTxBatched q))))]
+
+/-- the field structure of the v2 classes and their sub-PDUs, as regenerated from the live module -/
+theorem v2_shape :
+    bpduV2Rx = [hdr2b, mtsSet, .int "rssi" .always 1 .big false 0 (-1), .int "toa256" .always 2 .big true 0 1,
+      .int "cir" .always 2 .big true 0 1, .buf "soft-bits" (.flagFalse "nope") (.table "mod" burstTable)]
+    ∧ bpduV2Tx = [hdr2b, mtsSet, .int "pwr" .always 1 .big false 0 1, .int "scpir" .always 1 .big true 0 1,
+      .spare "spare" .always (.fixed 3) [0], .buf "hard-bits" (.flagFalse "nope") (.table "mod" burstTable)]
+    ∧ pduV2Tx = ⟨true, [hdr2, mtsSet, .int "pwr" .always 1 .big false 0 1, .int "scpir" .always 1 .big true 0 1,
+      .spare "spare" .always (.fixed 3) [0], .int "fn" .always 4 .big false 0 1,
+      .buf "hard-bits" (.flagFalse "nope") (.table "mod" burstTable), .seq "bpdu" .always .rest bpduV2Tx]⟩ :=
+  ⟨rfl, rfl, rfl⟩
+
+set_option maxRecDepth 100000 in
+theorem layout_v2_rx_batched (p : RxPart) (hp : p.valid) :
+    envTo bpduV2Rx (valsRxBatched p) = .ok (layoutV2RxBatched p) := by
+  obtain ⟨h1, h2, h3, h4, h5, h6, h7, h8, h9, h10⟩ := hp
+  have e0 := hdr2b_enc p.tn p.batch p.shadow p.trxn (valsRxBatched p) h1 h2 h3 h4 (by simp [valsRxBatched, Vals.get])
+    (by simp [valsRxBatched, Vals.get]) (by simp [valsRxBatched, Vals.get]) (by simp [valsRxBatched, Vals.get])
+  have e1 := mts_enc p.nope p.mod p.tsc (valsRxBatched p) h5 h6 h7 (by simp [valsRxBatched, Vals.get])
+    (by simp [valsRxBatched, Vals.get]) (by simp [valsRxBatched, Vals.get])
+  have e2 := neg_u8_enc "rssi" (valsRxBatched p) p.rssi (by simp [valsRxBatched, Vals.get]) h8.1 h8.2
+  have e3 := i16_enc "toa256" (valsRxBatched p) p.toa256 (by simp [valsRxBatched, Vals.get]) h9.1 h9.2
+  have e4 := i16_enc "cir" (valsRxBatched p) p.cir (by simp [valsRxBatched, Vals.get]) h10.1 h10.2
+  have e5 := burst_enc "soft-bits" burstTable (valsRxBatched p) p.nope p.bits (by simp [valsRxBatched, Vals.get])
+    (by simp [valsRxBatched, Vals.get])
+  rw [v2_shape.1]
+  simp only [envTo, e0, e1, e2, e3, e4, e5, layoutV2RxBatched]
+  simp
+
+set_option maxRecDepth 100000 in
+theorem layout_v2_tx_batched (p : TxPart) (hp : p.valid) :
+    envTo bpduV2Tx (valsTxBatched p) = .ok (layoutV2TxBatched p) := by
+  obtain ⟨h1, h2, h3, h4, h5, h6, h7, h8, h9⟩ := hp
+  have e0 := hdr2b_enc p.tn p.batch p.shadow p.trxn (valsTxBatched p) h1 h2 h3 h4 (by simp [valsTxBatched, Vals.get])
+    (by simp [valsTxBatched, Vals.get]) (by simp [valsTxBatched, Vals.get]) (by simp [valsTxBatched, Vals.get])
+  have e1 := mts_enc p.nope p.mod p.tsc (valsTxBatched p) h5 h6 h7 (by simp [valsTxBatched, Vals.get])
+    (by simp [valsTxBatched, Vals.get]) (by simp [valsTxBatched, Vals.get])
+  have e2 := u8_enc "pwr" (valsTxBatched p) p.pwr (by simp [valsTxBatched, Vals.get]) h8
+  have e3 := i8_enc "scpir" (valsTxBatched p) p.scpir (by simp [valsTxBatched, Vals.get]) h9.1 h9.2
+  have e4 := spare3_enc (valsTxBatched p)
+  have e5 := burst_enc "hard-bits" burstTable (valsTxBatched p) p.nope p.bits (by simp [valsTxBatched, Vals.get])
+    (by simp [valsTxBatched, Vals.get])
+  rw [v2_shape.2.1]
+  simp only [envTo, e0, e1, e2, e3, e4, e5, layoutV2TxBatched]
+  simp
+
+set_option maxRecDepth 100000 in
+/-- version 2, Rx: the primary part followed by ANY number of batched sub-PDUs encodes to the documented layout -/
+theorem layout_v2_rx (fn : Nat) (p : RxPart) (subs : List RxPart) (hfn : fn < 4294967296) (hp : p.valid)
+    (hs : ∀ q ∈ subs, q.valid) :
+    toBytes pduV2Rx (valsV2Rx fn p subs) = .ok (layoutV2Rx fn p subs) := by
+  obtain ⟨h1, h2, _, h4, h5, h6, h7, h8, h9, h10⟩ := hp
+  generalize hv : valsV2Rx fn p subs = v
+  have g : ∀ k x, Vals.get (valsV2Rx fn p subs) k = x → Vals.get v k = x := by intro k x h; rw [← hv]; exact h
+  have e0 := hdr2_enc p.tn p.batch p.trxn v h1 h2 h4 (g _ _ (by simp [valsV2Rx, Vals.get]))
+    (g _ _ (by simp [valsV2Rx, Vals.get])) (g _ _ (by simp [valsV2Rx, Vals.get]))
+  have e1 := mts_enc p.nope p.mod p.tsc v h5 h6 h7 (g _ _ (by simp [valsV2Rx, Vals.get]))
+    (g _ _ (by simp [valsV2Rx, Vals.get])) (g _ _ (by simp [valsV2Rx, Vals.get]))
+  have e2 := neg_u8_enc "rssi" v p.rssi (g _ _ (by simp [valsV2Rx, Vals.get])) h8.1 h8.2
+  have e3 := i16_enc "toa256" v p.toa256 (g _ _ (by simp [valsV2Rx, Vals.get])) h9.1 h9.2
+  have e4 := i16_enc "cir" v p.cir (g _ _ (by simp [valsV2Rx, Vals.get])) h10.1 h10.2
+  have e5 := u32_enc "fn" v fn (g _ _ (by simp [valsV2Rx, Vals.get])) hfn
+  have e6 := burst_enc "soft-bits" burstTable v p.nope p.bits (g _ _ (by simp [valsV2Rx, Vals.get]))
+    (g _ _ (by simp [valsV2Rx, Vals.get]))
+  have e7 := fieldTo_seq_eval "bpdu" bpduV2Rx v _ _ (g _ _ (by simp [valsV2Rx, Vals.get]))
+    (seqEnc_flat (fun x => envTo bpduV2Rx x) valsRxBatched layoutV2RxBatched subs
+      (fun q hq => layout_v2_rx_batched q (hs q hq)))
+  rw [v2rx_shape]
+  simp only [toBytes, envTo, e0, e1, e2, e3, e4, e5, e6, e7, layoutV2Rx, layoutV2RxPrimary]
+  simp
+
+set_option maxRecDepth 100000 in
+/-- version 2, Tx -/
+theorem layout_v2_tx (fn : Nat) (p : TxPart) (subs : List TxPart) (hfn : fn < 4294967296) (hp : p.valid)
+    (hs : ∀ q ∈ subs, q.valid) :
+    toBytes pduV2Tx (valsV2Tx fn p subs) = .ok (layoutV2Tx fn p subs) := by
+  obtain ⟨h1, h2, _, h4, h5, h6, h7, h8, h9⟩ := hp
+  generalize hv : valsV2Tx fn p subs = v
+  have g : ∀ k x, Vals.get (valsV2Tx fn p subs) k = x → Vals.get v k = x := by intro k x h; rw [← hv]; exact h
+  have e0 := hdr2_enc p.tn p.batch p.trxn v h1 h2 h4 (g _ _ (by simp [valsV2Tx, Vals.get]))
+    (g _ _ (by simp [valsV2Tx, Vals.get])) (g _ _ (by simp [valsV2Tx, Vals.get]))
+  have e1 := mts_enc p.nope p.mod p.tsc v h5 h6 h7 (g _ _ (by simp [valsV2Tx, Vals.get]))
+    (g _ _ (by simp [valsV2Tx, Vals.get])) (g _ _ (by simp [valsV2Tx, Vals.get]))
+  have e2 := u8_enc "pwr" v p.pwr (g _ _ (by simp [valsV2Tx, Vals.get])) h8
+  have e3 := i8_enc "scpir" v p.scpir (g _ _ (by simp [valsV2Tx, Vals.get])) h9.1 h9.2
+  have e4 := spare3_enc v
+  have e5 := u32_enc "fn" v fn (g _ _ (by simp [valsV2Tx, Vals.get])) hfn
+  have e6 := burst_enc "hard-bits" burstTable v p.nope p.bits (g _ _ (by simp [valsV2Tx, Vals.get]))
+    (g _ _ (by simp [valsV2Tx, Vals.get]))
+  have e7 := fieldTo_seq_eval "bpdu" bpduV2Tx v _ _ (g _ _ (by simp [valsV2Tx, Vals.get]))
+    (seqEnc_flat (fun x => envTo bpduV2Tx x) valsTxBatched layoutV2TxBatched subs
+      (fun q hq => layout_v2_tx_batched q (hs q hq)))
+  rw [v2_shape.2.2]
+  simp only [toBytes, envTo, e0, e1, e2, e3, e4, e5, e6, e7, layoutV2Tx, layoutV2TxPrimary]
+  simp
+
 /-! ## non-vacuity -/
 
 example : InRange pduV0Tx (valsTx 0 7 2715647 255 (List.replicate 148 1)) 0 := by
